@@ -487,6 +487,15 @@ impl Walrus {
     }
 }
 
+impl Drop for Walrus {
+    fn drop(&mut self) {
+        // Clean/dirty markers reach disk through a background thread that coalesces
+        // updates for a few milliseconds and stops as soon as the instance is gone.
+        // Write them out here so that what the caller was told survives a clean shutdown.
+        let _ = self.topic_clean_tracker.flush_all();
+    }
+}
+
 impl Walrus {
     fn rebuild_topic_entry_counts_after_recovery(
         &self,
